@@ -38,6 +38,21 @@ func genC15Plan(r *zsim.Rng) *sysPlan {
 	if r.Chance(1, 2) {
 		p.Multi = []int{-1, 2, 5}[r.Intn(3)]
 	}
+	if r.Chance(1, 3) {
+		// lines kept as runes (non-ASCII, single-width letters only so that width = number of runes), longer than
+		// the window: they are cut for display, at a place that moves with every resize
+		for k := r.Range(1, 4); k > 0; k-- {
+			var b strings.Builder
+			for w := r.Range(6, 30); w > 0; w-- {
+				for l := r.Range(1, 6); l > 0; l-- {
+					b.WriteString(string([]rune("abcdefàéîöüß")[r.Intn(12)]))
+				}
+				b.WriteByte(' ')
+			}
+			fmt.Fprintf(&b, "#x%d", k)
+			p.Lines.Extra = append(p.Lines.Extra, b.String())
+		}
+	}
 	p.Args = append(p.Args, "--no-scrollbar", "--no-mouse")
 	p.Gens = []lineSpec{p.Lines, {N: r.Intn(4), Seed: r.Seed53(), Shape: r.Intn(3)}}
 	switch r.Intn(3) {
@@ -53,6 +68,10 @@ func genC15Plan(r *zsim.Rng) *sysPlan {
 		p.Args = append(p.Args, "--info", "hidden")
 	case 3:
 		p.Args = append(p.Args, "--info", "right")
+	case 4:
+		if r.Bool() {
+			p.Args = append(p.Args, "--info", "inline-right")
+		}
 	}
 	if r.Chance(1, 3) {
 		p.Args = append(p.Args, "--header", c15Header)
@@ -115,6 +134,7 @@ func c15Settle(r *sysRun, busy bool) {
 	scr := r.tty.Screen()
 	layout := argValue(plan.Args, "--layout")
 	info := argValue(plan.Args, "--info")
+	inlineInfo := info == "inline" || info == "inline-right" // the counters share the prompt row
 	unicodeOn := !hasArg(plan.Args, "--no-unicode")
 	pointer, marker, ellipsis := "▌", "┃", "··"
 	if !unicodeOn {
@@ -136,7 +156,7 @@ func c15Settle(r *sysRun, busy bool) {
 	}
 	pr := scr[promptRow]
 	promptText := "> " + st.Query
-	if runeWidthOf(promptText) < cols-1 && info != "inline" && t.xoffset == 0 {
+	if runeWidthOf(promptText) < cols-1 && !inlineInfo && t.xoffset == 0 {
 		if pr != strings.TrimRight(promptText, " ") {
 			c.violate("c15.prompt", "prompt row shows %q, expected %q (%s)%s", pr, promptText, where, dump())
 			return
@@ -144,7 +164,7 @@ func c15Settle(r *sysRun, busy bool) {
 	} else if !strings.HasPrefix(pr+" ", "> ") {
 		c.violate("c15.prompt", "prompt row %q does not start with the prompt (%s)%s", pr, where, dump())
 		return
-	} else if info != "inline" {
+	} else if !inlineInfo {
 		// The query is scrolled horizontally (fzf keeps a scroll offset of up to half the cursor position even
 		// when the text would fit – a design choice, not decided here) or does not fit: the row must show one
 		// contiguous piece of the query that contains the cursor, never wider than the screen.
@@ -168,7 +188,7 @@ func c15Settle(r *sysRun, busy bool) {
 	var infoRow = -1
 	switch info {
 	case "hidden":
-	case "inline":
+	case "inline", "inline-right":
 		infoRow = promptRow
 	default:
 		infoRow = promptRow - 1
@@ -178,7 +198,7 @@ func c15Settle(r *sysRun, busy bool) {
 	}
 	if infoRow >= 0 && infoRow < rows {
 		m := infoRe.FindStringSubmatch(strings.TrimPrefix(scr[infoRow], "> "+st.Query))
-		if info == "inline" {
+		if inlineInfo {
 			// inline: after the query on the prompt row (if there is room)
 			rest := scr[infoRow]
 			if i := strings.Index(rest, st.Query); i >= 0 {
@@ -228,7 +248,7 @@ func c15Settle(r *sysRun, busy bool) {
 	}
 	fixed0 := 2
 	if info == "inline" {
-		fixed0 = 1
+		fixed0 = 1 // inline-right keeps the separator row below the prompt
 	}
 	maxItems := rows - fixed0 - headerRows0
 	if maxItems <= 0 {
